@@ -17,7 +17,9 @@ for d in /verif/seeded/$pat/; do
 import json,sys,subprocess
 p,out,demo,tier=sys.argv[1:5]
 m=json.load(open(p)); c=m.setdefault('confirmed',{})
-c['recheck']=dict(head=subprocess.check_output(['git','-C','/repo','log','--format=%h','-1'],text=True).strip(),
+import os
+seed=os.environ.get('VERIF_SEED','0') or '0'
+c['recheck' if seed=='0' else 'recheck_seed'+seed]=dict(seed=int(seed), head=subprocess.check_output(['git','-C','/repo','log','--format=%h','-1'],text=True).strip(),
                   demo_exit_with_change=int(demo), tier=tier, check_result=out.strip(), detected=out.strip().startswith('VIOLATION'))
 json.dump(m, open(p,'w'), indent=1)
 PY
